@@ -110,11 +110,11 @@ PROPS = {
     "C19": dict(
         level="model_checking",
         runs=[dict(harness="c19", variant="san", shards=16)],
-        deadline=dict(quick=240, thorough=1500),
+        deadline=dict(quick=240, thorough=2700),
         rule="BFS over histories of printbuf_memappend / memappend_fast / memset / sprintbuf / reset whose size and offset arguments are taken relative to the "
              "current (bpos,size): room-2..room+1, 2*size, -1, INT_MAX-bpos-{1,0,9}; offsets -2,-1,0,bpos-1..bpos+1,size-1,size,size+3 x lengths 0,1,size-off-1..+1, "
              "INT_MAX-off(+1), -1; formatted output of 0,5,127,128,129,300 bytes; states merged on (bpos,size,contents); non-trivial = distinct state",
-        bound=dict(quick="4 operations after the start state; start states: empty, 31 and 4000 bytes already written; growth capped at 5x the start fill", thorough="5 operations; start states empty, 31, 4000, 8190, 16383, 65530 bytes"),
+        bound=dict(quick="4 operations after the start state; start states: empty, 31 and 4000 bytes already written; growth capped at 2.5x the start fill (4x from 8190 bytes on)", thorough="5 operations; start states empty, 31, 4000, 8190, 16383, 65530 bytes"),
         states_stat="states", transitions_stat="transitions",
         technique="explicit-state BFS of operation histories on the real printbuf (ASan build), byte-array reference model checked after every transition",
         claim="after every transition of every history to the depth bound the buffer's length and bytes equal a plain byte-array model, appended text is NUL-terminated "
